@@ -13,18 +13,17 @@ def expectedCol (c : Spec.Col) : RecordCol :=
   ⟨c.st, Spec.varintLen (Spec.toU64 c.st), c.content.length, (Spec.serialGet c.st c.content).getD .null⟩
 
 /-- A table-leaf cell written by SQLite anywhere in a page (`pre`/`post` arbitrary), with its
-overflow chain laid out in pairwise distinct pages of the same version, is parsed to exactly its
+overflow chain laid out in the pages `pgs` of the same version, is parsed to exactly its
 rowid, payload size, local size, overflow page list and record; the digest covers the on-page
-bytes and the overflow content. -/
-theorem table_leaf_cell_roundtrip (v : VersionIf) (hu : 512 ≤ v.pageSize) (hu2 : v.pageSize ≤ 65536)
+bytes and the overflow content.  (That the pages of `pgs` are pairwise distinct need not be
+assumed: it follows from `ChainLaidOut`, see `chain_pages_distinct`.) -/
+theorem table_leaf_cell_roundtrip (v : VersionIf) (hu : 512 ≤ v.pageSize)
     (cols : List Spec.Col) (hv : ∀ c ∈ cols, Spec.ValidCol c)
     (hn : (Spec.typeBytes cols).length + 3 < 2 ^ 21)
     (rowid : Int) (hr1 : -(2 ^ 63 : Int) ≤ rowid) (hr2 : rowid < (2 ^ 63 : Int))
-    (hp : (Spec.encodeRecord cols).length < 2 ^ 31)
-    (pgs : List Nat) (hnd : pgs.Nodup) (hpg : ∀ p ∈ pgs, p < 2 ^ 32)
+    (hp : (Spec.encodeRecord cols).length < 2 ^ 63)
+    (pgs : List Nat) (hpg : ∀ p ∈ pgs, p < 2 ^ 32)
     (pre post : List Nat) (index : Nat)
-    (hpage : (pre ++ Spec.writeTableLeafCell v.pageSize rowid (Spec.encodeRecord cols) (pgs.headD 0) ++ post).length = v.pageSize)
-    (hbytes : ∀ x ∈ pre ++ post, x < 256)
     (hchain : Spec.ChainLaidOut v pgs ((Spec.encodeRecord cols).drop
         (Spec.localSize v.pageSize (Spec.maxLeaf v.pageSize) (Spec.encodeRecord cols).length))) :
     ∃ c, parseCellLocal v .tableLeaf
@@ -39,17 +38,15 @@ theorem table_leaf_cell_roundtrip (v : VersionIf) (hu : 512 ≤ v.pageSize) (hu2
       (∃ r, c.record = some r ∧ r.cols = cols.map expectedCol ∧ r.content = Spec.encodeRecord cols) ∧
       c.digest = Spec.writeTableLeafCell v.pageSize rowid (Spec.encodeRecord cols) (pgs.headD 0) ++
         (Spec.encodeRecord cols).drop (Spec.localSize v.pageSize (Spec.maxLeaf v.pageSize) (Spec.encodeRecord cols).length) := by
-  exact Proofs.CellParse.table_leaf_cell_roundtrip v hu hu2 cols hv hn rowid hr1 hr2 hp pgs hnd hpg pre post index hpage hbytes hchain
+  exact Proofs.CellParse.table_leaf_cell_roundtrip v hu cols hv hn rowid hr1 hr2 hp pgs hpg pre post index hchain
 
 /-- the same for index leaf cells (index entries, WITHOUT ROWID rows) -/
-theorem index_leaf_cell_roundtrip (v : VersionIf) (hu : 512 ≤ v.pageSize) (hu2 : v.pageSize ≤ 65536)
+theorem index_leaf_cell_roundtrip (v : VersionIf) (hu : 512 ≤ v.pageSize)
     (cols : List Spec.Col) (hv : ∀ c ∈ cols, Spec.ValidCol c)
     (hn : (Spec.typeBytes cols).length + 3 < 2 ^ 21)
-    (hp : (Spec.encodeRecord cols).length < 2 ^ 31)
-    (pgs : List Nat) (hnd : pgs.Nodup) (hpg : ∀ p ∈ pgs, p < 2 ^ 32)
+    (hp : (Spec.encodeRecord cols).length < 2 ^ 63)
+    (pgs : List Nat) (hpg : ∀ p ∈ pgs, p < 2 ^ 32)
     (pre post : List Nat) (index : Nat)
-    (hpage : (pre ++ Spec.writeIndexLeafCell v.pageSize (Spec.encodeRecord cols) (pgs.headD 0) ++ post).length = v.pageSize)
-    (hbytes : ∀ x ∈ pre ++ post, x < 256)
     (hchain : Spec.ChainLaidOut v pgs ((Spec.encodeRecord cols).drop
         (Spec.localSize v.pageSize (Spec.maxLocalIndex v.pageSize) (Spec.encodeRecord cols).length))) :
     ∃ c, parseCellLocal v .indexLeaf
@@ -57,8 +54,25 @@ theorem index_leaf_cell_roundtrip (v : VersionIf) (hu : 512 ≤ v.pageSize) (hu2
           index pre.length = .ok c ∧
       c.rowid = none ∧
       c.payloadSize = some ((Spec.encodeRecord cols).length : Int) ∧
+      c.bytesOnFirst = some (Spec.localSize v.pageSize (Spec.maxLocalIndex v.pageSize) (Spec.encodeRecord cols).length : Int) ∧
       c.overflowPages.map (·.number) = pgs ∧
-      (∃ r, c.record = some r ∧ r.cols = cols.map expectedCol ∧ r.content = Spec.encodeRecord cols) := by
-  exact Proofs.CellParse.index_leaf_cell_roundtrip v hu hu2 cols hv hn hp pgs hnd hpg pre post index hpage hbytes hchain
+      c.start = pre.length ∧
+      c.end_ = ((pre.length + (Spec.writeIndexLeafCell v.pageSize (Spec.encodeRecord cols) (pgs.headD 0)).length : Nat) : Int) ∧
+      (∃ r, c.record = some r ∧ r.cols = cols.map expectedCol ∧ r.content = Spec.encodeRecord cols) ∧
+      c.digest = Spec.writeIndexLeafCell v.pageSize (Spec.encodeRecord cols) (pgs.headD 0) ++
+        (Spec.encodeRecord cols).drop (Spec.localSize v.pageSize (Spec.maxLocalIndex v.pageSize) (Spec.encodeRecord cols).length) := by
+  exact Proofs.CellParse.index_leaf_cell_roundtrip v hu cols hv hn hp pgs hpg pre post index hchain
+
+/-- an overflow chain laid out as SQLite does (every page holds the number of the next one, the
+last page holds 0) necessarily runs through pairwise distinct pages -/
+theorem chain_pages_distinct (v : VersionIf) (pgs rest : List Nat)
+    (hchain : Spec.ChainLaidOut v pgs rest) (hpg : ∀ p ∈ pgs, p < 2 ^ 32) : pgs.Nodup := by
+  exact Proofs.CellChain.laid_nodup v pgs rest hchain hpg
+
+/-- a laid-out chain has exactly the number of pages `Spec.overflowPages` predicts -/
+theorem chain_page_count (v : VersionIf) (hu : 4 < v.pageSize) (pgs rest : List Nat)
+    (hchain : Spec.ChainLaidOut v pgs rest) :
+    pgs.length = Spec.overflowPages v.pageSize rest.length := by
+  exact Proofs.CellChain.laid_length v hu pgs rest hchain
 
 end SqliteDissect.Properties.C01Cell
